@@ -170,7 +170,7 @@ Proof.
   assert (Hsd : forall ks, In K_slice_dim ks -> same_fields ks o o' ->
                            slice_dim_value o = slice_dim_value o').
   { intros ks Hi Hs. unfold slice_dim_value. rewrite (Hs K_slice_dim Hi). reflexivity. }
-  destruct r; simpl in *.
+  destruct r; cbn [holds reads] in *.
   - (* required *)
     unfold rule_required. rewrite <- (H K_version (or_introl eq_refl)).
     destruct (jassoc K_version o) as [v|]; [|reflexivity].
@@ -178,20 +178,20 @@ Proof.
     apply forallb_ext_in. intros k Hk. unfold has_key.
     rewrite (H k); [reflexivity|]. right. apply (version_fields_incl _ _ E). exact Hk.
   - unfold rule_affine. rewrite (H K_affine (or_introl eq_refl)). reflexivity.
-  - unfold rule_slice_dim. rewrite (Hsd _ (or_introl eq_refl) H). reflexivity.
+  - unfold rule_slice_dim. rewrite (Hsd [K_slice_dim] (or_introl eq_refl) H). reflexivity.
   - unfold rule_ndim, shape_value. rewrite (H K_shape (or_introl eq_refl)). reflexivity.
   - destruct (Hcd _ (incl_refl _) H) as [Hs Hc].
     unfold rule_class_dicts. rewrite <- Hs. destruct (shape_value o) as [l|]; [|reflexivity].
     apply forallb_ext_in. intros cl Hin. rewrite (Hc l cl Hin). reflexivity.
   - destruct (Hcd (K_shape :: K_slice_dim :: base_names)) as [Hs Hc]; [|exact H|].
     { intros k [<-|Hk]; [left; reflexivity | right; right; exact Hk]. }
-    unfold rule_counts. rewrite <- Hs, <- (Hsd _ (or_intror (or_introl eq_refl)) H).
+    unfold rule_counts. rewrite <- Hs, <- (Hsd (K_shape :: K_slice_dim :: base_names) (or_intror (or_introl eq_refl)) H).
     destruct (shape_value o) as [l|]; [|reflexivity].
     destruct (slice_dim_value o) as [sd|]; [|reflexivity].
     apply forallb_ext_in. intros cl Hin. rewrite (Hc l cl Hin). reflexivity.
   - destruct (Hcd (K_shape :: K_slice_dim :: base_names)) as [Hs Hc]; [|exact H|].
     { intros k [<-|Hk]; [left; reflexivity | right; right; exact Hk]. }
-    unfold rule_no_slice_data. rewrite <- Hs, <- (Hsd _ (or_intror (or_introl eq_refl)) H).
+    unfold rule_no_slice_data. rewrite <- Hs, <- (Hsd (K_shape :: K_slice_dim :: base_names) (or_intror (or_introl eq_refl)) H).
     destruct (shape_value o) as [l|]; [|reflexivity].
     destruct (slice_dim_value o) as [[d|]|]; try reflexivity.
     apply forallb_ext_in. intros cl Hin. rewrite (Hc l cl Hin). reflexivity.
@@ -324,7 +324,7 @@ Theorem corruption_breaks_rule (o o' : obj) k :
 Proof.
   intros Hv Hc. apply valid_spec_rules in Hv.
   destruct Hv as (R1 & R2 & R3 & R4 & R5 & R6 & R7 & R8).
-  destruct Hc; simpl.
+  destruct Hc; cbn [broken_rule holds].
   - (* drop a required field *)
     unfold rule_required. rewrite jassoc_jdel.
     destruct (str_eqb K_version k) eqn:E; [reflexivity|].
